@@ -13,7 +13,7 @@ import (
 func init() {
 	register(&PropRules{
 		ID:      "C06",
-		Explain: "Guard structure of the web API decided on every CFG path of every registered handler (handlers are discovered from the webHandler{…,H} literals): (C06.1) Store.Add/Remove/SetAdmin/List/ListFull are called only under sessions.Check(request.Session) status==200 ∧ isAdmin; (C06.2) Store.Update(T,·) only under status==200 ∧ (isAdmin ∨ session user == T) with Session≠\"\" ∧ OldPassword==\"\", or under Store.Authenticate(T, OldPassword) ok ∧ err==nil with Session==\"\" ∧ OldPassword≠\"\"; (C06.3) sessions.Generate(U,A) only under Store.Authenticate(U,·) ok ∧ err==nil with A the store-reported flag; (C06.4) every status-200 response is under the handler's gate and, for mutating handlers, under the store call's err==nil; list payloads come only from Store.List/ListFull; (C06.5) every request field handed to sessions.Check or the Store is known non-empty; (C06.6) the Store mutators are called only from gated handlers and CLI actions, never from functions reachable from the SASL/LDAP/basic-auth/authenticate roots. (C06.7) on every path into cipher.AEAD.Open the nonce length equals NonceSize(); (C06.8) the session window rule of C07.4 (a token is accepted only with 0 <= age <= lifetime).",
+		Explain: "Guard structure of the web API decided on every CFG path of every registered handler (handlers are discovered from the webHandler{…,H} literals): (C06.1) Store.Add/Remove/SetAdmin/List/ListFull are called only under sessions.Check(request.Session) status==200 ∧ isAdmin; (C06.2) Store.Update(T,·) only under status==200 ∧ (isAdmin ∨ session user == T) with Session≠\"\" ∧ OldPassword==\"\", or under Store.Authenticate(T, OldPassword) ok ∧ err==nil with Session==\"\" ∧ OldPassword≠\"\"; (C06.3) sessions.Generate(U,A) only under Store.Authenticate(U,·) ok ∧ err==nil with A the store-reported flag; (C06.4) every status-200 response is under the handler's gate and, for mutating handlers, under the store call's err==nil; list payloads come only from Store.List/ListFull; (C06.5) every request field handed to sessions.Check or the Store is known non-empty and is read from a request struct whose json Decode returned nil (a malformed body is refused, not processed with the fields decoded before the error); (C06.6) the Store mutators are called only from gated handlers and CLI actions, never from functions reachable from the SASL/LDAP/basic-auth/authenticate roots. (C06.7) on every path into cipher.AEAD.Open the nonce length equals NonceSize(); (C06.8) the session window rule of C07.4 (a token is accepted only with 0 <= age <= lifetime), evaluated on splitCheckToken or, when that function has been dissolved into inline helpers, on Check with the opened plaintext.",
 		Undec:   []string{"sessions.Check itself (C07)", "JSON decoding ambiguities (duplicate keys, case-insensitive field match) inside encoding/json", "byte-for-byte equality of the store at run time (follows from 'no mutator call' + C15)", "closure under request sequences"},
 		Run:     runC06,
 		Floors:  map[string]int{"C06.1": 5, "C06.2": 1, "C06.3": 1, "C06.4": 8, "C06.5": 8, "C06.6": 5},
@@ -463,9 +463,20 @@ func c065(c *an.Ctx, p *an.Prog, h Root, fn *ssa.Function) {
 				continue
 			}
 			an.EnumPaths(fn, nil, in, func(s *an.PathState) {
+				if assumesEmptyComposed(s) {
+					return // no execution takes this path (an error message built around a literal is never "")
+				}
 				for _, a := range s.CallArgs(ci)[1:] {
 					f, ok := isRequestField(a)
-					if !ok || !strings.Contains(a.V.Type().String(), "string") {
+					if !ok {
+						continue
+					}
+					// a malformed request is refused, not processed with whatever was decoded before the error: the
+					// struct the field is read from was filled by a json Decode whose error is known to be nil
+					if !decodedOK(s, a.Args[0].Args[0]) {
+						bad = append(bad, fmt.Sprintf("%s receives request field %s although decoding the request body may have failed (path %s)", shortName(name), f, s.BlockPath()))
+					}
+					if !strings.Contains(a.V.Type().String(), "string") {
 						continue
 					}
 					n++
@@ -480,7 +491,26 @@ func c065(c *an.Ctx, p *an.Prog, h Root, fn *ssa.Function) {
 		c.OK("C06.5", "handler="+h.Name+"|fields", p.Pos(fn.Pos()), "basic-auth takes credentials from the Authorization header (no JSON fields)")
 		return
 	}
-	c.Check(len(bad) == 0 && n > 0, "C06.5", "handler="+h.Name+"|non-empty-fields", p.Pos(fn.Pos()), fmt.Sprintf("%d field uses, all under field != \"\"", n), strings.Join(uniqS(bad), "; "))
+	c.Check(len(bad) == 0 && n > 0, "C06.5", "handler="+h.Name+"|non-empty-fields", p.Pos(fn.Pos()), fmt.Sprintf("%d field uses, all under field != \"\" and behind a successful decode of the request body", n), strings.Join(uniqS(bad), "; "))
+}
+
+// decodedOK: the request struct req was filled by (*json.Decoder).Decode (or json.Unmarshal) on this path and that call
+// returned nil.
+func decodedOK(s *an.PathState, req *an.Term) bool {
+	for _, e := range s.Events {
+		if e.Kind != "call" || (e.Callee != "(*encoding/json.Decoder).Decode" && e.Callee != "encoding/json.Unmarshal") || len(e.Args) != 2 || e.Res == nil || e.Args[1] == nil {
+			continue
+		}
+		if e.Args[1].StripConv().K != req.K {
+			continue
+		}
+		for _, a := range s.Atoms {
+			if a.Op == "==" && a.B != nil && a.B.IsConst("nil") && a.A.K == e.Res.K {
+				return true
+			}
+		}
+	}
+	return false
 }
 
 // c066: who may call the Store mutators.
